@@ -51,6 +51,11 @@ func c16Stream(r *rand.Rand, kind int) (stream []byte, ncmds int, desc string) {
 		for i := 0; i < n; i++ {
 			stream = append(stream, encodeCmd(cmdArgs())...)
 		}
+		if r.Intn(3) == 0 {
+			// the client says goodbye at the end of its pipeline: everything before it is answered
+			stream = append(stream, encodeCmd([]string{"QUIT"})...)
+			return stream, n + 1, fmt.Sprintf("RESP pipeline of %d commands and QUIT", n)
+		}
 		return stream, n, fmt.Sprintf("RESP pipeline of %d commands", n)
 	case 1: // telnet-style inline commands
 		n := 2 + r.Intn(5)
@@ -64,6 +69,10 @@ func c16Stream(r *rand.Rand, kind int) (stream []byte, ncmds int, desc string) {
 			}
 			stream = append(stream, []byte(strings.Join(a, " ")+"\r\n")...)
 		}
+		if r.Intn(3) == 0 {
+			stream = append(stream, []byte("QUIT\r\n")...)
+			return stream, n + 1, fmt.Sprintf("telnet-style stream of %d commands and QUIT", n)
+		}
 		return stream, n, fmt.Sprintf("telnet-style stream of %d commands", n)
 	case 2: // native protocol: $<len> <command>\r\n
 		n := 2 + r.Intn(4)
@@ -76,6 +85,10 @@ func c16Stream(r *rand.Rand, kind int) (stream []byte, ncmds int, desc string) {
 				a = o
 			}
 			stream = append(stream, []byte(fmt.Sprintf("$%d %s\r\n", len(a), a))...)
+		}
+		if r.Intn(3) == 0 {
+			stream = append(stream, []byte("$4 QUIT\r\n")...)
+			return stream, n + 1, fmt.Sprintf("native-protocol stream of %d commands and QUIT", n)
 		}
 		return stream, n, fmt.Sprintf("native-protocol stream of %d commands", n)
 	case 3: // HTTP GET
